@@ -72,7 +72,9 @@ func c05Gen(tp *Tapes) *c05Spec {
 		var ops []c05Op
 		for i := 0; i < n; i++ {
 			op := c05Op{Ctx: g.Draw(np), Entry: g.Draw(5)}
-			switch g.Draw(8) {
+			switch g.Draw(9) {
+			case 8:
+				op.Kind = "cache-missing" // FromCache of a name no loader has: must fail, and must not wedge the set
 			case 5:
 				op.Kind = "cache-exec"
 			case 6:
@@ -137,6 +139,8 @@ func c05DoOp(w *World, sp *c05Spec, set *pongo2.TemplateSet, shared *pongo2.Temp
 	tpl := shared
 	var err error
 	switch op.Kind {
+	case "cache-missing":
+		tpl, err = set.FromCache("nope-not-there.tpl")
 	case "cache-exec":
 		tpl, err = set.FromCache(sp.Prog.Main)
 	case "string-exec":
